@@ -8,23 +8,34 @@ the virtual-time loop with a simulated certificate producer.
 """
 import os, re, json, itertools, copy
 import lib
+import c14_lvs as LV        # stream family == 'lvs': the validator over generated Light VerSec schemas (C14 x C12)
 
 PROP = 'C14'
 TITLE = 'The schema validator accepts exactly packets with a valid chain to the anchor'
-LEAN_TARGETS = ['NdnProofs.Props.C14']
+LEAN_TARGETS = ['NdnProofs.Props.C14', 'NdnProofs.Props.C14Lvs']
 THEOREMS = [
     'Ndn.C14.validate_sound', 'Ndn.C14.validate_complete', 'Ndn.C14.verdict_iff_chain',
     'Ndn.C14.cache_inv_preserved', 'Ndn.C14.verdict_history_independent',
     'Ndn.C14.other_instances_irrelevant', 'Ndn.C14.system_verdict_iff_chain',
     'Ndn.C14.loop_never_accepted', 'Ndn.C14.construct_refuses', 'Ndn.C14.caught_exceptions',
+    # C14 x C12 (Props/C14Lvs.lean): real names, allowed := Checker.check of a loader-accepted LVS model
+    'Ndn.C14.allowed_iff_schema_link', 'Ndn.C14.validate_sound_lvs', 'Ndn.C14.validate_complete_lvs',
+    'Ndn.C14.verdict_iff_chain_lvs', 'Ndn.C14.system_verdict_iff_chain_lvs', 'Ndn.C14.lvs_chain_keys_matched',
+    'Ndn.C14.chain_never_through_unmatched_key', 'Ndn.C14.unmatched_key_never_accepted', 'Ndn.C14.root_of_trust_spec',
+    'Ndn.C14.construct_refuses_lvs', 'Ndn.C14.construct_refuses_missing_fns_lvs',
 ]
 PARTIAL = {}
 TRUSTED = [
     'C14: ideal signatures - the crypto library verifies a signature under key bits k iff it was produced with the '
     'private key of k (Unforgeable/Correct are explicit hypotheses of the theorems; the correspondence instantiates them '
     'with the generator\'s ground truth of who signed)',
-    'C14: Checker.check / Checker.match / root_of_trust are a black box (`allowed`, `matched`, `roots`); the signing check is '
-    'property C12',
+    'C14: the generic theorems take the signing check as a parameter (`allowed`); the `_lvs` theorems instantiate it with the '
+    'Lean model of Checker.check / match / root_of_trust / validate_user_fns on a loader-accepted LVS model (C12 model, names = '
+    'lists of TLV components) - hypotheses as in C12: value edges deterministic (compiler output), user functions defined and '
+    'not raising (completeness directions only); that this model is the code is sampled by the C12 check and by the `lvs` '
+    'stream here; in the PKI stream the driver is still given the real checker\'s answers (`allowed`, `matched`, `roots`)',
+    'C14: an exception raised by Checker.check inside validate_name (empty packet name, raising user function) is read as '
+    '"not allowed" in the model (`lvsAllowed`); links on which the real check raises are not compared',
     'C14: the world of retrievable certificates is static during a case; NDNApp.express_interest is reduced to '
     'Data-of-that-name / Nack / timeout (PIT behaviour is C03); packet decoding is C01/C07; validity periods are not looked at '
     'by the validator and are not part of the property',
@@ -37,7 +48,11 @@ RULE = ('PKIs over 5 LVS schema templates (site/admin/user/device, a flat varian
         'timeout, unsigned / digest / empty key locator, loop, declared type != algorithm, HMAC with the public bits, empty or '
         'garbage key, other certificate served), 1..3 validator instances (own anchor, rival anchor, other schema, '
         'unbuildable ones) and 2..6 validations in random order, plus every permutation of small step sets; non-trivial = at '
-        'least one certificate fetch or acceptance; distinct = distinct case descriptions')
+        'least one certificate fetch or acceptance; distinct = distinct case descriptions. Stream `lvs` (c14_lvs.py): generated '
+        'LVS schemas (generator of C11-C13; half of the multi-root ones funnelled into one root), user_fns dictionaries '
+        'lacking some functions, up to 7 names (instances of root rules, signed/signer instances, near misses, some with an '
+        'implicit digest) each tried as the name of a properly self-signed anchor, and 3..7 packets signed / not signed by an '
+        'anchor; non-trivial there = one anchor accepted and one refused')
 
 T0 = 1000.0
 VERSION = 'v=1000000'
@@ -392,6 +407,8 @@ def _fresh_process_state():
 
 
 def run_impl(case):
+    if LV.is_lvs(case):
+        return LV.run_impl(case)
     from apphelp import AppRig
     from ndn import encoding as enc
     from ndn.app_support.light_versec import lvs_validator
@@ -496,6 +513,8 @@ def _ids(case, impl):
 
 
 def model_line(case, impl):
+    if LV.is_lvs(case):
+        return LV.model_line(case, impl)
     oids, names, kids = _ids(case, impl)
     idx = {oid: i for i, oid in enumerate(oids)}
     st = {'hmac': 'h', 'rsa': 'r', 'ecdsa': 'e', 'ed25519': 'd', 'other': 'o'}
@@ -531,6 +550,8 @@ def model_line(case, impl):
 
 
 def model_obs(answer, case, impl):
+    if LV.is_lvs(case):
+        return LV.model_obs(answer, case, impl)
     assert answer.startswith('ok '), answer
     _, ir, sr = answer.split(' ')
     _, names, _ = _ids(case, impl)
@@ -543,6 +564,8 @@ def model_obs(answer, case, impl):
 
 
 def impl_obs(impl):
+    if impl.get('lvs'):
+        return LV.impl_obs(impl)
     return {'insts': [r['built'] for r in impl['insts']],
             'steps': [[s['verdict'] if s['flags_ok'] else s['verdict'] + '!interest-flags', s['fetched']]
                       for s in impl['steps']]}
@@ -551,6 +574,8 @@ def impl_obs(impl):
 # ------------------------------------------------------------------------------------- oracle
 def oracle(case, impl):
     """the property statement, evaluated on the implementation's observable behaviour"""
+    if LV.is_lvs(case):
+        return LV.oracle(case, impl)
     for k, (inst, rec) in enumerate(zip(case['insts'], impl['insts'])):
         exp = spec_buildable(case, inst)
         got = rec['built'] == 'ok'
@@ -595,10 +620,14 @@ def finding_key(case, impl, why):
 
 
 def nontrivial(case, impl):
+    if LV.is_lvs(case):
+        return LV.nontrivial(case, impl)
     return any(s['fetched'] or s['verdict'] == 'A' for s in impl['steps'])
 
 
 def tags(case, impl):
+    if LV.is_lvs(case):
+        return LV.tags(case, impl)
     t = ['dev:' + case.get('deviation', '?'), 'insts:%d' % len(case['insts']), 'steps:%d' % len(case['steps'])]
     for r in impl['insts']:
         t.append('built:' + r['built'])
@@ -887,9 +916,13 @@ def cases(rng, tier):
             c = json.loads(json.dumps(base))
             c['steps'] = [list(s) for s in perm]
             yield c
+    yield from LV.cases(rng, tier)      # generated LVS schemas: construction check and anchor-signed packets (c14_lvs.py)
 
 
 def shrink(case):
+    if LV.is_lvs(case):
+        yield from LV.shrink(case)
+        return
     steps = case['steps']
     for i in range(len(steps)):
         c = json.loads(json.dumps(case))
@@ -956,10 +989,16 @@ LEVEL_TEXT = ('Lean 4 theorems over a hand-written model of lvs_validator / unio
               '/ MemoryKeyStorage (one storage per instance): soundness (accept -> chain), completeness (chain of depth < fuel -> '
               'accept), verdict <-> chain whenever a verdict is reached, storage invariant preserved by every validation, '
               'history independence for one instance and for any interleaving of several instances, loops never accepted, '
-              'construction refused exactly for a non-matching or not properly self-signed anchor. The model is tied to the code '
+              'construction refused exactly for a non-matching or not properly self-signed anchor; composed with the C12 model of '
+              'the Light VerSec checker (names = lists of TLV components, allowed := Checker.check of any loader-accepted model): '
+              'accept <-> a chain whose every link is a C12 signing relation (packet name matches a node one of whose sign '
+              'constraints is a node the key name matches under the packet\'s bindings), no accepted chain passes through a key '
+              'name that matches no rule, root_of_trust = rule names of signer nodes without signers, construction built exactly '
+              'when the anchor name matches a node and every root-of-trust rule name. The model is tied to the code '
               'on every run by differential execution of the compiled model against the real validator on the real NDNApp with '
               'real keys and certificates, plus an independent chain oracle computed from the generator\'s ground truth.')
 LEVEL_NOTE = ('Proof is about the model; model=code is sampled (differential testing), not proved. Signatures are ideal '
-              '(explicit hypotheses); the LVS signing check is a black box (C12); the world is static during a case.')
+              '(explicit hypotheses); the LVS signing check is the C12 model in the `_lvs` theorems (a parameter in the generic ones); '
+              'the world is static during a case.')
 TECHNIQUE = 'Lean 4 proof (induction on fuel / on the chain, storage invariant) + model/implementation correspondence check'
 DESIGN_REF = 'DESIGN.md section 7, C14; finding F11'
